@@ -653,7 +653,7 @@ fn instantiate_quad(
         return Ok(None);
     }
     let Some(predicate) = instantiate_term(
-        template.triple.1,
+        template_predicate_lexeme(template.triple.1),
         binding,
         prefixes,
         database,
@@ -795,6 +795,16 @@ fn is_probable_absolute_iri(value: &str) -> bool {
         })
 }
 
+/// The keyword `a` in predicate position of a template stands for rdf:type,
+/// exactly as in WHERE patterns.
+fn template_predicate_lexeme(predicate: &str) -> &str {
+    if predicate.trim() == "a" {
+        "<http://www.w3.org/1999/02/22-rdf-syntax-ns#type>"
+    } else {
+        predicate
+    }
+}
+
 fn instantiate_term(
     term: &str,
     binding: &HashMap<String, u32>,
@@ -826,8 +836,14 @@ fn instantiate_term(
         else {
             return Ok(None);
         };
-        let Some(predicate) =
-            instantiate_term(&predicate, binding, prefixes, database, insert, blank_nodes)?
+        let Some(predicate) = instantiate_term(
+            template_predicate_lexeme(&predicate),
+            binding,
+            prefixes,
+            database,
+            insert,
+            blank_nodes,
+        )?
         else {
             return Ok(None);
         };
